@@ -10,8 +10,8 @@
    its own parameter — the first of that name —, else an internal definition of this
    body, else the binding the ENCLOSING lambda resolves lexically (by induction over
    the nesting: the innermost enclosing binder), else the global.                 *)
-From MW Require Import Model.Base Model.Datum Model.VmTypes Model.Heap Model.VmBase Model.Compile Model.Vm
-  Proofs.ScopeProofs.
+From MW Require Import Model.Base Model.Datum Model.VmTypes Model.Heap Model.Gc Model.VmBase Model.Compile Model.Vm
+  Proofs.SymtabProofs Proofs.ScopeProofs Proofs.EnvProofs.
 Open Scope N_scope.
 
 Theorem C02_own_parameter_wins : forall args internal free iof vararg sym i,
@@ -106,13 +106,190 @@ Theorem C02_shared_location_visible : forall s k v e j l s1 k',
 Proof. exact shared_location_visible. Qed.
 Print Assumptions C02_shared_location_visible.
 
-(* OPEN (kept visible): separate activations get separate locations and a binding
-   outlives its creator follow from ENTER allocating a fresh environment object per
-   activation on the heap (Model/Vm.v enter_frame; Proofs/TailProofs.v
-   enter_frame_effect shows the stack side); the whole-machine invariant that makes
-   every LexPtr lead to a non-pointer cell is stated but not proved here. *)
+(* ---- Activations (Proofs/EnvProofs.v).  An environment is a heap cell [VLexEnv eid]
+   (its ADDRESS is what %ep, closures and pointers name) plus the Rc payload [eid].
+   [heap_inv] (C18) says the free list holds exactly the free cells; [store_wf] that the
+   Rc ids in use are below [next_id]; [allocated h a] = a < hlen h and not Free.
+
+   ENTER on a closure puts the activation environment at an address that was NOT
+   allocated before the instruction, under an id never used before; every environment
+   object of the state before is still there, unchanged, elsewhere. *)
+Theorem C02_enter_fresh_env : forall s lam cep r s',
+  heap_inv (hp s) -> store_wf (st s) ->
+  heap_deref (hp s) (acc s) = Ok (VClosure lam cep) ->
+  enter_frame s = ROk r s' ->
+  exists env,
+    env_at s' (ep s') = Some (next_id (st s), env) /\
+    ~ allocated (hp s) (ep s') /\ allocated (hp s') (ep s') /\
+    tget (envs (st s)) (next_id (st s)) = None /\
+    heap_inv (hp s') /\ store_wf (st s') /\ next_id (st s') = next_id (st s) + 1 /\
+    (forall a, allocated (hp s) a ->
+               a <> ep s' /\ allocated (hp s') a /\ cell_at (hp s') a = cell_at (hp s) a) /\
+    (forall e, e <> next_id (st s) -> tget (envs (st s')) e = tget (envs (st s)) e) /\
+    (forall p x, env_at s p = Some x ->
+               p <> ep s' /\ fst x <> next_id (st s) /\ env_at s' p = Some x).
+Proof. exact enter_fresh_env. Qed.
+Print Assumptions C02_enter_fresh_env.
+
+Example C02_example_enter_fresh_env :
+  heap_inv (hp (ex_vm (VBool false))) /\ store_wf (st (ex_vm (VBool false))) /\
+  heap_deref (hp (ex_vm (VBool false))) (acc (ex_vm (VBool false))) = Ok (VClosure 0 1) /\
+  enter_frame (ex_vm (VBool false)) = ROk false ex_s1 /\ ep ex_s1 = 3 /\
+  env_at ex_s1 3 = Some (2, [VBool false; VLexPtr 1 1]).
+Proof.
+  split; [exact ex_heap_inv|]. split; [exact ex_store_wf|]. split; [reflexivity|]. exact ex_enter_1.
+Qed.
+
+(* separate activations get separate environments: when ENTER runs again while the
+   environment of an earlier activation still exists, the new one is another heap cell
+   with another payload, and the earlier one is untouched *)
+Theorem C02_separate_activations : forall s1 r1 s1' s2 r2 s2' lam cep x1,
+  enter_frame s1 = ROk r1 s1' ->
+  env_at s1' (ep s1') = Some x1 ->
+  heap_inv (hp s2) -> store_wf (st s2) ->
+  heap_deref (hp s2) (acc s2) = Ok (VClosure lam cep) ->
+  env_at s2 (ep s1') = Some x1 ->
+  enter_frame s2 = ROk r2 s2' ->
+  exists x2, env_at s2' (ep s2') = Some x2 /\ env_at s2' (ep s1') = Some x1 /\
+             ep s2' <> ep s1' /\ fst x2 <> fst x1.
+Proof. exact separate_activations. Qed.
+Print Assumptions C02_separate_activations.
+
+(* two calls of the SAME closure: environments at 3 and 4, payloads 2 and 3 *)
+Example C02_example_separate_activations :
+  enter_frame (ex_vm (VBool false)) = ROk false ex_s1 /\
+  env_at ex_s1 (ep ex_s1) = Some (2, [VBool false; VLexPtr 1 1]) /\
+  heap_deref (hp ex_s2) (acc ex_s2) = Ok (VClosure 0 1) /\
+  env_at ex_s2 (ep ex_s1) = Some (2, [VBool false; VLexPtr 1 1]) /\
+  enter_frame ex_s2 = ROk false ex_s2' /\ ep ex_s1 = 3 /\ ep ex_s2' = 4 /\
+  env_at ex_s2' 4 = Some (3, [VNil; VLexPtr 1 1]).
+Proof. vm_compute. auto 10. Qed.
+
+(* the frame property of an assignment: exactly one slot of one environment payload —
+   the location the slot denotes — is rewritten; heap, %ep and every other environment
+   object stay as they were *)
+Theorem C02_store_frame : forall k v s u s',
+  store_lex_slot k v s = ROk u s' ->
+  exists e j l, location s (ep s) k = Some (e, j) /\ tget (envs (st s)) e = Some l /\ j < len l /\
+    hp s' = hp s /\ ep s' = ep s /\
+    tget (envs (st s')) e = Some (list_set l j v) /\
+    (forall j', j' <> j -> list_get (list_set l j v) j' = list_get l j') /\
+    (forall e', e' <> e -> tget (envs (st s')) e' = tget (envs (st s)) e') /\
+    (forall p e' l', e' <> e -> env_at s p = Some (e', l') -> env_at s' p = Some (e', l')).
+Proof. exact store_frame. Qed.
+Print Assumptions C02_store_frame.
+
+(* ... hence an assignment to an OWN slot (parameter, internal definition: the slot is
+   its own location) of one activation leaves the other activation's environment as it
+   was, and every variable read there gives the same value unless it names that very
+   location (a captured variable shared on purpose) *)
+Theorem C02_store_own_slot_separate : forall k v s u s' eid other x,
+  location s (ep s) k = Some (eid, k) ->
+  env_at s other = Some x -> fst x <> eid ->
+  store_lex_slot k v s = ROk u s' ->
+  env_at s' other = Some x /\
+  forall k' w, load_lex_slot k' (with_ep s other) = ROk w (with_ep s other) ->
+               location s other k' <> Some (eid, k) ->
+               load_lex_slot k' (with_ep s' other) = ROk w (with_ep s' other).
+Proof. exact store_own_slot_separate. Qed.
+Print Assumptions C02_store_own_slot_separate.
+
+(* the second activation assigns its parameter; the first activation's still reads #f *)
+Example C02_example_store_separate : exists s3,
+  store_lex_slot 0 (VChar 65) ex_s2' = ROk tt s3 /\
+  location ex_s2' (ep ex_s2') 0 = Some (3, 0) /\
+  env_at s3 4 = Some (3, [VChar 65; VLexPtr 1 1]) /\
+  load_lex_slot 0 (with_ep ex_s2' 3) = ROk (VBool false) (with_ep ex_s2' 3).
+Proof. exact ex_store_2. Qed.
+
+(* a binding outlives its creator: RET restores %sp %ep %ip %bp from the frame and
+   touches neither the heap nor any environment payload; every environment object (in
+   particular the returning activation's, to which the closures created in it point),
+   every closure cell and every slot read through them is as before *)
+Theorem C02_binding_outlives_creator : forall ob s s0 r s',
+  read_opcode s = ROk ORet s0 -> run_one ob s = ROk r s' ->
+  hp s' = hp s /\ st s' = st s /\
+  (forall p, env_at s' p = env_at s p) /\
+  (forall a lam env, heap_get (hp s) a = Ok (VClosure lam env) ->
+                     heap_get (hp s') a = Ok (VClosure lam env) /\ env_at s' env = env_at s env) /\
+  (forall env k v, load_lex_slot k (with_ep s env) = ROk v (with_ep s env) ->
+                   load_lex_slot k (with_ep s' env) = ROk v (with_ep s' env)).
+Proof. exact binding_outlives_creator. Qed.
+Print Assumptions C02_binding_outlives_creator.
+
+Example C02_example_binding_outlives_creator : exists s0 s',
+  read_opcode ex_s1 = ROk ORet s0 /\ run_one ex_ob ex_s1 = ROk false s' /\
+  ep s' = USIZE_MAX /\ sp s' = 0 /\ heap_get (hp ex_s1) 2 = Ok (VClosure 0 1) /\
+  load_lex_slot 0 (with_ep ex_s1 3) = ROk (VBool false) (with_ep ex_s1 3).
+Proof. exact ex_ret. Qed.
+
+(* ---- Locations are flat, as an INVARIANT.  [lex_inv s]: heap_inv, store_wf, every
+   value of every environment payload is a non-pointer or a pointer to a non-pointer
+   slot of an existing environment object ([flat_envs]), and no LexPtr VALUE sits in the
+   stack or in %acc.  It holds in the machine of Vm::new, implies the statement below
+   for that state, and is preserved by ENTER, CLOSURE, RET, PUSH %acc, JMP, JNT, HALT and
+   by an assignment of a non-pointer; under it a variable reference never yields a
+   pointer (so the value a MOV assigns is a non-pointer). *)
+Theorem C02_flat_initial : forall c, 0 < c -> lex_inv (vm_empty c).
+Proof. exact lex_inv_empty. Qed.
+Print Assumptions C02_flat_initial.
+
+Theorem C02_flat_of_invariant : forall s, lex_inv s ->
+  forall p k q k2 eid l,
+    env_at s p = Some (eid, l) -> list_get l k = Some (VLexPtr q k2) ->
+    exists e2 l2 v, env_at s q = Some (e2, l2) /\ list_get l2 k2 = Some v /\
+                    match v with VLexPtr _ _ => False | _ => True end.
+Proof. exact lex_inv_flat. Qed.
+Print Assumptions C02_flat_of_invariant.
+
+Theorem C02_flat_preserved_enter : forall s r s', lex_inv s -> enter_frame s = ROk r s' -> lex_inv s'.
+Proof. exact lex_inv_enter. Qed.
+Print Assumptions C02_flat_preserved_enter.
+
+Theorem C02_flat_preserved_step : forall ob s op s0 r s',
+  lex_inv s -> read_opcode s = ROk op s0 -> scoped_op op = true ->
+  run_one ob s = ROk r s' -> lex_inv s'.
+Proof. exact lex_inv_step. Qed.
+Print Assumptions C02_flat_preserved_step.
+
+Theorem C02_flat_preserved_store : forall s k v u s',
+  lex_inv s -> no_lexptr v -> store_lex_slot k v s = ROk u s' -> lex_inv s'.
+Proof. exact lex_inv_store. Qed.
+Print Assumptions C02_flat_preserved_store.
+
+Theorem C02_load_never_pointer : forall s k v s',
+  flat s -> load_lex_slot k s = ROk v s' -> no_lexptr v.
+Proof. exact load_lex_slot_clean. Qed.
+Print Assumptions C02_load_never_pointer.
+
+(* the invariant holds of the example machine; ENTER creates a real pointer (slot 1 of the
+   activation environment points to slot 1 of the closure environment, which holds #t) *)
+Example C02_example_flat :
+  lex_inv (ex_vm (VBool false)) /\ enter_frame (ex_vm (VBool false)) = ROk false ex_s1 /\
+  env_at ex_s1 3 = Some (2, [VBool false; VLexPtr 1 1]) /\ lex_inv ex_s1 /\
+  scoped_op OEnter = true /\ scoped_op OClosureAcc = true /\ scoped_op ORet = true.
+Proof.
+  assert (H : lex_inv (ex_vm (VBool false))) by (apply ex_lex_inv; exact I).
+  destruct ex_enter_1 as (E1 & _ & E3).
+  split; [exact H|]. split; [exact E1|]. split; [exact E3|].
+  split; [exact (lex_inv_enter _ _ _ H E1)|]. auto.
+Qed.
+
+(* OPEN (kept visible, NOT weakened).  As written the statement quantifies over every
+   machine state, reachable or not, and in that form it is false
+   (C02_locations_flat_unrestricted_refuted: a hand-made environment whose slot points to
+   itself).  What is proved is the invariant form above.  What stays open is the
+   preservation of [lex_inv] by the other instructions (MOV family, PUSH operand, CONS,
+   VPUSH, CALL/TCALL with builtins and continuations, VARARG): they move values
+   between %acc/stack and heap cells, global slots, vectors, bytecode operands and saved
+   continuation stacks, so the "no LexPtr value" part of the invariant has to be extended
+   to those stores, and [run_one] is parameterised by the builtin table [other_builtin]. *)
 Definition C02_locations_flat_stmt : Prop :=
   forall (s : vm) p k q k2 eid l,
     env_at s p = Some (eid, l) -> list_get l k = Some (VLexPtr q k2) ->
     exists e2 l2 v, env_at s q = Some (e2, l2) /\ list_get l2 k2 = Some v /\
                     match v with VLexPtr _ _ => False | _ => True end.
+
+Theorem C02_locations_flat_unrestricted_refuted : ~ C02_locations_flat_stmt.
+Proof. exact flat_not_universal. Qed.
+Print Assumptions C02_locations_flat_unrestricted_refuted.
